@@ -250,3 +250,51 @@ theorem escape_id (rep : Nat → Bool) (t : List Nat) (h : ∀ c ∈ t, rep c = 
     rw [ih (fun x hx => h x (List.mem_cons_of_mem _ hx))]
 
 end CssVerif.EncEscape
+
+namespace CssVerif.EncEscape
+
+/-- the guard is exact: where it fails, the escaped text reads differently -/
+theorem roundtrip_fails_from (rep : Nat → Bool) (hr : SyntaxRep rep) (t : List Nat) :
+    ∀ s, (∀ c ∈ t, c ≤ maxUnicode) → okFrom rep s t = false → run s (escape rep t) ≠ run s t := by
+  induction t with
+  | nil => intro s _ h; simp [okFrom] at h
+  | cons c t ih =>
+    intro s hmax hok
+    have hmax' : ∀ x ∈ t, x ≤ maxUnicode := fun x hx => hmax x (List.mem_cons_of_mem _ hx)
+    have hcm : c ≤ maxUnicode := hmax c (List.mem_cons_self)
+    simp only [okFrom, Bool.and_eq_false_iff] at hok
+    cases hc : rep c with
+    | true =>
+      -- the head is kept; the failure is in the tail
+      rcases hok with hok | hok
+      · simp [hc] at hok
+      · simp only [escape, hc, if_true, run]
+        intro e
+        exact ih (step s c).1 hmax' hok (List.append_cancel_left e)
+    | false =>
+      have c_bs : c ≠ 0x5C := by intro e; rw [e, hr.bs] at hc; cases hc
+      by_cases hs : s = .bs
+      · -- the failure is here: `\c` stays `\c`, but `\` `\HEX ` starts with an escaped backslash
+        subst hs
+        have c_hex : hexVal? c = none := by
+          cases h : hexVal? c with
+          | none => rfl
+          | some v => have := hr.hexAny c (by simp [h]); rw [this] at hc; cases hc
+        simp only [escape, hc, Bool.false_eq_true, if_false, escChar, List.cons_append, run, step, c_bs, c_hex,
+          if_true, if_false]
+        intro e
+        simp only [List.cons.injEq, true_and] at e
+        exact c_bs e.1.symm
+      · obtain ⟨pre, h1, h2⟩ := step_unrep rep hr s c hc hs
+        rcases hok with hok | hok
+        · simp [hc, hs] at hok
+        · rw [h1] at hok
+          simp only [escape, hc, Bool.false_eq_true, if_false, escChar, List.cons_append, List.append_assoc,
+            List.nil_append, run, h1, h2]
+          rw [run_bs_digits_space c (escape rep t) hcm c_bs]
+          intro e
+          have e1 := List.append_cancel_left e
+          simp only [List.cons.injEq, true_and] at e1
+          exact ih .norm hmax' hok e1
+
+end CssVerif.EncEscape
